@@ -72,7 +72,10 @@ def parse_rust_bytes(s):
 
 
 def detag(s):
-    return re.sub(r"@[A-Za-z_0-9]*#\d+", "", s)
+    s = re.sub(r"@[A-Za-z_0-9]*#\d+", "", s)
+    # accessor vs field: TaprootMerkleBranch::as_inner(x) is x.0 (checked as R4.accessor)
+    s = re.sub(r"taproot::TaprootMerkleBranch::as_inner\(((?:[^()]|\([^()]*\))*)\)", r"\1.0", s)
+    return s
 
 
 class Fn:
@@ -223,7 +226,7 @@ def run(c, prog, ctx):
     good, det = pair_order(C, lambda z: z)
     c.inst("R3.branch-order", "combine: smaller hash first", good and set(re.findall(r"arg\d\.hash", det)) == {"arg1.hash", "arg2.hash"}, det, C.f.where(), C.f.path)
     CUR = "var('v0',)"
-    EL = "elem(taproot::TaprootMerkleBranch::as_inner(arg1.merkle_branch))"
+    EL = "elem(arg1.merkle_branch.0)"
     good, det = pair_order(V, lambda z: re.sub(r"^taproot::TapNodeHash::as_byte_array\((.*)\)$", r"\1", z))
     c.inst("R3.branch-order", "verify: smaller of (current, path element) first", good and CUR in det and EL in det, det, V.f.where(), V.f.path)
     cret = [sh(s[1]) for cx, s in C.stmts("ret") if not cx]
@@ -255,7 +258,9 @@ def run(c, prog, ctx):
     init = [sh(s[2]) for cx, s in V.stmts("set") if not cx]
     c.inst("R4.verify-start", "verifier starts from the node hash of leaf(script, self.leaf_version)", init == [LEAFNODE % ("arg4", "arg1.leaf_version")], "initial %s" % init, V.f.where(), V.f.path)
     lp = [sh(s[1]) for cx, s in V.flat if s[0] == "loop"]
-    c.inst("R4.verify-path", "verifier folds merkle_branch in stored order", lp == ["discr(next(taproot::TaprootMerkleBranch::as_inner(arg1.merkle_branch)))"], "loops %s" % lp, V.f.where(), V.f.path)
+    c.inst("R4.verify-path", "verifier folds merkle_branch in stored order", lp == ["discr(next(arg1.merkle_branch.0))"], "loops %s" % lp, V.f.where(), V.f.path)
+    AI = Fn(prog, T + "TaprootMerkleBranch::as_inner")
+    c.inst("R4.accessor", "as_inner() is the stored vector", AI.lines == ["return arg1.0"], AI.text(), AI.f.where(), AI.f.path)
     vret = [sh(s[1]) for cx, s in V.stmts("ret")]
     want = ("bitcoin::XOnlyPublicKey::tweak_add_check(arg1.internal_key, arg2, schnorr::TweakedPublicKey::as_inner(arg3), arg1.output_key_parity, "
             "secp256k1_zkp::Scalar::from_be_bytes(taproot::TapTweakHash::to_byte_array(taproot::TapTweakHash::from_key_and_tweak(arg1.internal_key, std::option::Option::Some{var('v0',)}))))")
@@ -338,7 +343,7 @@ def run(c, prog, ctx):
     okk = len(S.L) == 1 and S.L[0][0] == "ret"
     if okk:
         try:
-            okk = all(ieval(S.L[0][1], {"m": m}, {"core::slice::len(taproot::TaprootMerkleBranch::as_inner(arg1.merkle_branch))": "m"}) == 33 + 32 * m for m in range(0, 140))
+            okk = all(ieval(S.L[0][1], {"m": m}, {"core::slice::len(arg1.merkle_branch.0)": "m", "core::slice::len(taproot::TaprootMerkleBranch::as_inner(arg1.merkle_branch))": "m", "std::vec::Vec::len(arg1.merkle_branch.0)": "m"}) == 33 + 32 * m for m in range(0, 140))
         except NoEval:
             okk = False
     c.inst("R5.size", "size() = 33 + 32 * path length", okk, S.text(), S.f.where(), S.f.path)
